@@ -168,7 +168,12 @@ pub fn generate(check: &str, tier: &str, seed: u64, run: u64) -> Case {
             }
         }
         "C17" => gen_tls_lazy(&mut rng),
-        "C20" => gen_future(&mut rng),
+        "C20" => {
+            // waker clones are Arc operations: explorations are long; the per-iteration oracles
+            // (validity, justified failure) also judge runs that hit the cap
+            config.iter_cap = if thorough { 40_000 } else { 3000 };
+            gen_future(&mut rng)
+        }
         "C18" => {
             let never = rng.chance(1, 6);
             if never {
